@@ -21,15 +21,17 @@ type sink struct {
 	sizes  []int // sizes of the Write calls of the current API call
 	n      int   // Write calls so far
 	failAt int   // 1-based index of the Write call that fails; 0 = never
-	mode   byte  // how it fails: 'z' (0, err)  'h' (len/2, err) after taking half  'f' (len, err) after taking everything
+	mode   byte  // how it fails: 'z' (0, err)  'h' (len/2, err) after taking half  'f' (len, err) after taking everything;
+	// upper case = transient (only write k fails)
 }
 
 var errSink = errors.New("sink failure")
 
 func (s *sink) Write(p []byte) (int, error) {
 	s.n++
-	if s.failAt > 0 && s.n >= s.failAt {
-		switch s.mode {
+	// lower-case modes: the sink stays broken from write k on; upper-case: only write k fails (transient)
+	if s.failAt > 0 && (s.n == s.failAt || (s.n > s.failAt && s.mode >= 'a')) {
+		switch s.mode | 0x20 {
 		case 'h':
 			s.buf.Write(p[:len(p)/2])
 			return len(p) / 2, errSink
@@ -57,16 +59,16 @@ func (s *sink) take() string {
 
 // source: a ReadSeeker over bytes with a fragmentation schedule and a fault index.
 type source struct {
-	data   []byte
-	pos    int64
-	calls  int   // Read+Seek calls so far
-	failAt int   // 1-based index of the failing call; 0 = never
+	data         []byte
+	pos          int64
+	calls        int  // Read+Seek calls so far
+	failAt       int  // 1-based index of the failing call; 0 = never
 	failWithData bool // the failing Read delivers bytes together with its error
-	frag   int   // >0: at most frag bytes per Read; <0: seeded random short reads
-	eofTogether bool // return io.EOF together with the last bytes
-	rng    uint64
-	trace  []string // per call: the API phase it happened in
-	phase  string
+	frag         int  // >0: at most frag bytes per Read; <0: seeded random short reads
+	eofTogether  bool // return io.EOF together with the last bytes
+	rng          uint64
+	trace        []string // per call: the API phase it happened in
+	phase        string
 }
 
 var errSource = errors.New("source failure")
@@ -267,6 +269,7 @@ func init() {
 			// failAt = <k> or <k>:<mode>
 			ks := strings.SplitN(a[4], ":", 2)
 			s.failAt = atoi(ks[0])
+			s.mode = 'z'
 			if len(ks) == 2 && ks[1] != "" {
 				s.mode = ks[1][0]
 			}
